@@ -692,6 +692,8 @@ func genCase(t *rapid.T) Case {
 		if k := rapid.IntRange(0, 5).Draw(t, "foreign-relids"); k <= 2 {
 			f.RelIDs = k
 		}
+		// JPEG declared as Word does (Default "jpg", media *.jpg, nothing for "jpeg")
+		f.JpgCT = rapid.IntRange(0, 2).Draw(t, "foreign-jpgct") > 0
 		if f.any() {
 			c.Foreign = f
 		}
